@@ -10,88 +10,7 @@ COMMON_NOTE = ("Trusted: Coq 8.16.1 kernel and VM (no native_compute); axioms pe
                "extraction (ExtrOcamlBasic, ExtrOcamlZBigInt -> zarith) and OCaml; the correspondence harness, oracle driver "
                "and case generator of this property. ")
 
-CHECKS = {
- "C01": dict(
-  technique="Coq proof (lia over explicit wrap-around on definitions regenerated from the Rust source by a translator; Lucas primality certificate and Fermat for inversion; ring identities modulo x^3-x+1) + differential correspondence of the extracted model against the compiled code",
-  text="Theorems C01_* (props/C01.v) hold for ALL inputs: Montgomery reduction, new/value, add/sub/mul/neg exact and canonical, unique representation, From<u128>/From<i64>/to_i64 exact with no overflow, p prime, mod_pow = repeated product, inverse = the unique inverse (Fermat), batch inversion = point-wise inversion (panic on a zero), extension-field add/sub/neg/mul/scalar-mul = polynomial arithmetic mod x^3-x+1, x^3-x+1 has no root mod p (Frobenius + Bezout certificate) so every non-zero extension element has the inverse the model returns. Straight-line functions are re-translated from the current source on every run and re-proved; loops and XFieldElement are hand models tied by a two-profile (release / overflow-checked) differential run on a boundary grid plus random inputs.",
-  note="XFieldElement::inverse is modelled by the closed-form adjugate (the code runs polynomial xgcd: tied by correspondence; both are THE inverse by C01_xinverse + uniqueness); XFE mod_pow_u64 and XFE batch_inversion are correspondence-only; uniqueness of XFE inverses follows from the ring laws but is not pinned."),
- "C20": dict(
-  technique="Coq proof (round-trip, strictness, uniqueness and mixed-radix order theorems about a hand-written value-level model of every conversion) + differential correspondence through the real API incl. serde_json and bincode",
-  text="54 theorems C20_* (props/C20.v), all inputs: bytes/hex/decimal-string/BigUint/Vec/serde round trips, accept-iff characterisations (strict parsers), cmp = numeric order of the base-p value, XFE<->Digest invertible exactly on digests with two trailing zeros. The model is hand-written and tied to the code by 52k (quick) / 696k (thorough) cases x 2 build profiles.",
-  note="All of C20 is hand-modelled (nothing translated); u64::from_str, hex 0.4.3, serde_json and bincode 1.3 framing are modelled by their documented formats. Base-field value semantics rely on C01."),
- "C19": dict(
-  technique="Coq proof (induction over limb lists for every limb count N; the TryFrom guards are regenerated from the Rust source by the translator and re-proved) + differential correspondence for N = 0..5 in two build profiles",
-  text="33 theorems C19_* (props/C19.v) for every limb count N: add/sub/mul/mul_two/sum return exactly the big-integer result and panic exactly when it is not representable; rem_div/div/rem exact, panic exactly on a zero divisor and never overflow internally; div_two, cmp, eq; try_from u64/u128 succeed exactly when the value fits (about the regenerated guards); BigUint, field-element-array and codec round trips; decode total, strict and unique. Hand-written limb model tied by 71k (quick) / 548k (thorough) cases x 2 profiles.",
-  note="Known finding (not repaired, printed as KNOWN-FINDING): U32s<0> conversions of 0 (key u32s0-tryfrom-zero). Everything except the two TryFrom guards is hand-modelled; index sums i+j+k assumed not to overflow usize (N < 2^58). One extra extraction directive: Z.pow -> zarith power."),
- "C03": dict(
-  technique="Coq proof by nested induction over the codec type grammar (unbounded depth) about a clause-for-clause model of the hand-written and derived BFieldCodec impls + differential correspondence on 267 concrete Rust types",
-  text="14 theorems C03_* (props/C03.v) for every type of the grammar (primitives, Option/Box/Vec/array/tuple, polynomials, structs, enums, the library's own structs) and every value / sequence: decode(encode v) = v, every accepted sequence re-encodes to itself (encoding injective, one accepted encoding per value), static length, closed-form layout lemmas (reverse field order, items in order, dynamic components length-prefixed). Hand-written model tied by 46k (quick) / 510k (thorough) cases x 2 profiles over 267 Rust types incl. zero-width item types.",
-  note="Codec model entirely hand-written (nothing translated). Rust types are a finite sample of the grammar; the theorem covers the grammar. Lists with >= 2^63 items and encodings >= 2^64 elements excluded by hypothesis."),
- "C13": dict(
-  technique="Coq proof (totality, strictness and linear-cost theorems about the same codec model as C03) + differential correspondence on near-valid sequences with a counting allocator in the harness",
-  text="18 theorems C13_* (props/C13.v): decode never panics or overflows on canonical sequences shorter than 2^32; anything that is not the encoding of a typed value is rejected (truncated, extended, limb >= 2^32, bool/option tag > 1, unknown discriminant, inconsistent prefixes, polynomial trailing zero); allocation cost linear in the sequence length. Tied by 45k (quick) / 411k (thorough) near-valid / truncated / extended / huge-count sequences x 2 profiles, peak heap bytes per decode compared with the model cost.",
-  note="cost_linear carries the hypothesis 'no list whose item type has encoded width 0' ([n] is a valid 1-element encoding of an n-item Vec<PhantomData>): round trip and a linear bound cannot both hold there. The real allocator / Vec growth policy are outside the model (the comparison allows 512 bytes per model slot)."),
- "C04": dict(
-  technique="Coq proof about a hand-written model of merkle_tree.rs over an abstract hash (accessor totality, verification theorems) + differential correspondence with the free hash in two build profiles",
-  text="Theorems C04_* (props/C04.v) about the model of MerkleTree accessors, authentication structures, PartialMerkleTree and inclusion-proof verification over an abstract hash H with explicit usize wrap-around: accessors never panic and never present an inner node as a leaf for any index in usize (repaired code), plus the verification theorems listed in evidence. The model is tied to the code by exhaustive small-height and random proofs, malformed proofs and extreme indices (26k cases x 2 profiles).",
-  note="Model hand-written; digests compared through the free term algebra (no Tip5 collision assumed: a collision could only cause a spurious mismatch). Trees of height > 16 are not built; the theorems cover them. See evidence for the list of theorems proved so far; statements not yet proved are visible as *_full definitions."),
- "C10": dict(
-  technique="Coq proof about a hand-written model of tree construction (both loops, explicit cutoff parameter, fuel) and authentication structures + differential correspondence over every cutoff environment value and thread count",
-  text="Theorems C10_* (props/C10.v): for every cutoff (including 0 after the repair) and every power-of-two leaf count the construction terminates and returns the specification tree (each inner node the hash of its children), independent of the cutoff; zero / non-power-of-two leaf counts are rejected. Tied to the code by one harness process per cutoff value {unset, abc, -1, 0, 1, 2, 3, 4, 8, 255, 256, 257, 2^20} x RAYON_NUM_THREADS {1,2,5,16} (58k cases), leaf counts to 2^12, exhaustive small index lists.",
-  note="Schedule independence of rayon's indexed collect is assumed from purity of the closures and validated by the thread sweep (partial by nature). Digests compared through the free term algebra."),
- "C12": dict(
-  technique="Coq proof about a hand-written model of MmrSuccessorProof (construction and verification) over an abstract hash + differential correspondence on all small (old, appended) pairs and inconsistent accumulators",
-  text="Theorems C12_* (props/C12.v) about the model of new_from_batch_append / verify; totality on structurally inconsistent accumulators (repaired code rejects them). Tied to the code by all (old, appended) pairs with total <= 64, bit-pattern leaf counts, every single-digest alteration, and accumulators whose peak list length disagrees with the leaf count (10k cases x 2 profiles).",
-  note="Model hand-written, index functions partly from the regenerated MmrIndexGen.v. See evidence for the list of theorems proved so far."),
- "C14": dict(
-  technique="Coq proof (C03/C13 theorems specialised to derived struct / enum shapes through a shape-to-grammar lowering, plus layout theorems) + differential correspondence of the workspace macro against the Coq model and against the published macro, on 86 generated type definitions",
-  text="38 theorems C14_* (props/C14.v) for every shape (unit / named / tuple structs, enums with unit and tuple variants, ignored named fields, generics as instantiation): round trip, uniqueness, static length, total and strict decoding, layout (discriminant first, reverse field order, dynamic fields length-prefixed, ignored named fields omitted and defaulted). Tied to the code by 86 definitions / 123 instances each derived twice (workspace macro and registry 0.7.1): model vs workspace, workspace vs registry bit for bit, 52k near-valid sequences x 2 profiles.",
-  note="The proc-macro's token generation is not translated: the tie is the differential run over sampled shapes; compile-time rejections are out of scope; Default::default() is abstract in the theorems; recursive derived types are outside the (finite-tree) grammar. Known findings (printed as KNOWN-FINDING): ignore attribute on tuple-struct fields has no effect; recursive derived types make static_length diverge."),
- "C06": dict(
-  technique="Coq proof (decimation-in-time induction over an abstract field with Leibniz equality, loop invariants for the bit-reversal swap loop and the three butterfly loops, verified modular exponentiation on the regenerated root table) + differential correspondence for both fields",
-  text="26 theorems C06_* (props/C06.v), nothing partial: every one of the 34 regenerated table entries has multiplicative order exactly n; for every l <= 31 and every canonical vector of length 2^l the model of ntt is the DFT at the powers of the library's primitive root and intt is its exact inverse (equalities on Montgomery words), over the base field and - coordinate-wise, unconditionally - over the extension field; ntt_noswap = bitreverse_order o ntt, intt_noswap + unscale compose to the inverse; lengths 0/1 and documented panics (non powers of two, 2^32). The loop model is hand-written and tied to ntt.rs by 3129 (quick) cases x 2 profiles: unit vectors (a spanning set), boundary values, non-power-of-two lengths, every table entry; the oracle also checks the model against a naive zarith DFT.",
-  note="ntt.rs is hand-modelled (loops); PRIMITIVE_ROOTS is regenerated from the source. Lengths >= 2^17 are executed only in the thorough tier (spot positions); the theorem covers them. Extra extraction directive: Z.pow -> zarith."),
- "C02": dict(
-  technique="Coq proof about tables, the MDS straight-line program (as an SSA program) and lane recombination REGENERATED from tip5.rs / mds.rs on every run (generic SSA linearity lemma + vm_compute of the coefficient matrix; lia for the 64/128-bit lane arithmetic), refinement of the hand-written round / permutation model to the Tip5 specification on field values + differential correspondence on engineered states",
-  text="20 theorems C02_* (props/C02.v), nothing partial: lookup table = formula, regenerated constants = specification literals, the regenerated 253-node generated_function computes exactly 16 x (circulant MDS product) on 32-bit limbs for ALL inputs, lane recombination congruent mod p and < 2^64 without overflow, round-constant margin so that every state after a round is canonical, S-box on Montgomery bytes, x^7; round / permutation / trace / hash_10 / hash_pair / Digest::hash refine the specification for every canonical 16-tuple. Tied by 2529 (quick) / 115k (thorough) states x 2 profiles engineered to hit 64-bit carries, lane sums in [p, 2^64), 0x00/0xff lookup bytes.",
-  note="Derivation of the round constants / MDS column from BLAKE3 / SHA-256 is not re-proved: they are golden specification literals (the repo's own tests check the derivation). Loops over the 16 lanes, byte splitting and the sponge plumbing are hand-modelled. Extra extraction directive: Z.pow -> zarith."),
- "C15": dict(
-  technique="Coq proof (padding shape/injectivity generic over the sponge; Tip5 absorb/squeeze/hash_varlen refinement; fuelled rejection-sampling specification) + differential correspondence with a recording sponge and directly set Tip5 states",
-  text="13 theorems C15_* (props/C15.v), nothing partial: pad = input ++ [1] ++ fewest zeros to a multiple of the rate, injective; pad_and_absorb_all absorbs exactly that for any sponge; variable- and fixed-length initial states differ in the capacity; hash_varlen; sample_indices returns the low bits of successive squeezed elements skipping exactly p-1 and leaves the state after the fewest squeezes; sample_scalars groups in threes. Tied by 1076 (quick) / 13k (thorough) cases x 2 profiles with rejected elements placed at chosen positions.",
-  note="Termination of rejection sampling for the concrete permutation is not provable: stated with fuel. sample_indices with a zero or non-power-of-two bound is out of scope (release and checked builds differ there by design of debug_assert)."),
- "C16": dict(
-  technique="Coq proof (bit-trick lemmas by induction on the binary representation, loop termination within fuel 64, agreement with an explicit post-order forest of perfect trees) about index functions REGENERATED from shared_basic.rs / shared_advanced.rs + hand models of the looping ones + exhaustive small-scope and pattern correspondence in two profiles",
-  text="28 theorems C16_* (props/C16.v), nothing partial: for all leaf counts / indices below 2^63 (u64 node indices where documented) every index function (children, siblings, leftmost ancestor, leaf<->node index, node count, local tree index and peak index, right-lineage lengths, node heights, parent, peaks, nodes added by an append, authentication path indices) neither overflows nor panics and equals the structural answer read off the explicitly constructed forest numbered in post-order. The nine straight-line functions are re-translated and re-proved on every run; the eight looping ones are hand models tied by exhaustive sweeps to 2^10 leaf counts plus bit patterns (33k cases x 2 profiles).",
-  note="Node index 0 and leaf counts >= 2^63 are outside the documented domain (observed: garbage / non-termination in release, panic in checked) and are excluded by hypotheses. Extra extraction directive: Z.pow -> zarith."),
- "C18": dict(
-  technique="Coq proof (psi tables regenerated and checked by vm_compute; linearity + 64 basis vectors + multiplicativity of evaluation at the roots of X^64+1; KEM decapsulation characterised as re-encryption with SHAKE256/SHA3 as section variables) + differential correspondence incl. 50/2000 full KEM runs with a Keccak inside the oracle",
-  text="16 theorems C18_* (props/C18.v): ring multiplication = negacyclic convolution modulo X^64+1 for ALL pairs, coset NTT/INTT evaluate at / interpolate from the 64 roots and are mutually inverse, the three module multiplication strategies agree, ciphertext array round trip, embed/extract correct below the lane-noise threshold, decapsulation accepts exactly re-encryptions (a tampered ciphertext is rejected unless it is itself an honest encapsulation of the payload it decrypts to), unrelated keys. dec(enc) = key is proved under the lane-noise bound (PARTIAL by nature: the probability of the bound is a cryptographic estimate).",
-  note="Modelled on field VALUES, relying on C01 for the base-field operations. SHAKE256 / SHA3-256 are oracles (section variables); the oracle's Keccak is tied to the sha3 crate by the xof and KEM cases. debug_assert shape checks of module products are not modelled."),
- "C05": dict(
-  technique="Coq proof about a hand-written model of the MMR membership-proof routines over an abstract hash (verification exactness and totality for all u64 inputs, path theorems by induction over the forest; bounded-exhaustive vm_compute theorems for the update routines) + differential correspondence on operation histories with the free hash",
-  text="Theorems C05_* (props/C05.v): verify = the specification (hashing the leaf up its path reproduces the covering peak) for ALL (index, leaf, peaks, count, path) incl. malformed claims, never panics; the path of a leaf verifies; append returns the path of the new leaf. The update routines (update_from_append, batch_update_from_append, update_from_leaf_mutation, the three batch mutation routines) are PARTIAL: proved by exhaustive computation for all MMRs up to 48 / 20 / 10 leafs (free hash), full statements visible as *_full definitions. Tied by 27k cases x 2 profiles: histories of up to 300 mixed operations with tracked proofs handed to the batch routines in random order, 26k malformed verify claims.",
-  note="PARTIAL: the general (unbounded) theorems for the update routines are not proved; the bounded-exhaustive theorems are proofs only for the stated sizes. Index arithmetic relies on C16. Digests compared through the free term algebra."),
- "C07": dict(
-  technique="Coq proof (coefficient-function polynomials over an abstract field with `ring`; degree bookkeeping for the NTT-based products under the C06 theorems; termination of the batch loops) about a hand-written raw-list model with regenerated dispatch thresholds + differential correspondence incl. 8 thread settings",
-  text="22 theorems C07_* (props/C07.v): naive / fast / dispatching multiply (mixed fields), the Mul impls, slow_square / square / fast_square, pow / fast_pow, scalar_mul, scale, shift, batch_multiply and par_batch_multiply for every thread count >= 1 return the exact ring product (coefficient convolution), for zero and constant operands too; unconditional for BFieldElement (transform lengths <= 2^31), conditional on an extension-field instance for XFieldElement. Tied by 3841 cases x 2 profiles around every threshold + RAYON_NUM_THREADS / taskset in {1,2,5,16}.",
-  note="XFieldElement / mixed-field NTT-based products are proved under Section hypotheses (field interface + NTT homomorphism for the extension field) that are not yet discharged. rayon order preservation assumed, validated by the thread sweep. Thresholds regenerated; algorithms hand-modelled."),
- "C09": dict(
-  technique="Coq proof (division with remainder, uniqueness from degree arguments, Euclid with explicit fuel, power-series inversion, structured multiples, every reduction arm) against the stdlib polynomial specification + differential correspondence under the PRODUCTION constants",
-  text="27 theorems C09_* (props/C09.v): divide returns the unique (q, r); every reduction strategy (long division, fast_reduce in its three stages, NTT-friendly and structured moduli) returns that remainder; xgcd is total, monic-or-zero, divides both, Bezout; formal_power_series_inverse_minimal for every precision; structured multiples are monic multiples of exactly the requested degree; clean_divide: long-division arm, fallback arm (divisor vanishing on the coset), root-0 handling, for every cutoff. PARTIAL: the zero-free NTT arm of clean_divide and the NTT-domain rounds of the Newton inversion (full statements visible). Tied by 1813 cases x 2 profiles with the production cutoff (512), degree pairs around (4d, d), divisors with roots on the evaluation coset.",
-  note="NTT-based theorems carry the C06 hypotheses as Section hypotheses; the extension-field instance is not discharged. The harness is a normal dependency build (cfg(test) off)."),
- "C11": dict(
-  technique="Coq proof (binary-counter / trailing-ones invariant for append, mutation by induction over the path, bag_peaks cases) about a hand-written accumulator model over an abstract hash + differential correspondence on histories",
-  text="8 theorems C11_* (props/C11.v): after any interleaving of appends and single-leaf mutations with valid proofs the accumulator's (leaf count, peaks) equal those of the perfect trees built from scratch over the current leaf list; bag_peaks = the documented fold (0, 1, >= 2 peaks); repeated / out-of-range indices are rejected. PARTIAL: the batch-mutation step of the history theorem and verify_batch_update_iff are proved only by exhaustive computation for all MMRs up to 10 leafs x all ordered lists of 1..3 distinct mutations (full statements visible). Tied by 256 history cases (up to 300 operations each) x 2 profiles incl. negative verify_batch_update grids.",
-  note="PARTIAL as stated. Digests through the free term algebra; Tip5::hash(&0u128) enters as the abstract constant hash0."),
- "C17": dict(
-  technique="Coq proof (each operation's result depends only on the denoted polynomial: op (l ++ zeros) ~ op l, derived from the C07 equations on raw lists) + differential correspondence of every public function on p and on p with stored leading zeros, owned and borrowed",
-  text="37 theorems C17_* (props/C17.v): equality iff same denotation, equal polynomials hash equally, accessors report a non-zero leading coefficient, encode uses the normalised coefficients, and one value-semantics theorem per operation and argument position of the basic API and the multiplication family (after the repair of slow_square / square / truncate / Hash). Tied by 17363 cases x 2 profiles; the C08/C09 API functions are covered by direct comparison op(p) vs op(p with k stored zeros), k in {1,2,17} (945 comparisons, all SAME).",
-  note="Display and decode(encode p) are correspondence-only; C08/C09 functions are covered by the direct comparison only, not by theorems."),
- "C08": dict(
-  technique="Coq proof (root bound and uniqueness of the interpolant; zerofier, Lagrange, divide-and-conquer and memoised interpolation, evaluation strategies, ZerofierTree, coset evaluate / interpolate, extrapolation variants) against the stdlib polynomial specification + differential correspondence incl. thread sweeps",
-  text="35 theorems C08_* (props/C08.v): every zerofier strategy (smart / fast / parallel / tree, any thread count) is the product of (X - r_i); Lagrange interpolation returns THE interpolant (uniqueness from the root bound); coset evaluation and interpolation are mutually inverse and equal Horner evaluation on the coset - unconditional for BFieldElement; evaluation strategies return Horner evaluations in input order; divide-and-conquer / parallel / batched (memoised) interpolation and every coset-extrapolation variant equal interpolate-then-evaluate, under the C09 reduction statements as hypotheses. PARTIAL: modular coset interpolation proved up to 2^17 codewords (even/odd recursion above is open), barycentric evaluation open. Tied by 2632 cases x 2 profiles + RAYON_NUM_THREADS / taskset sweeps.",
-  note="Theorems for the fast paths carry C06 / C07 / C09 statements as Section hypotheses (discharged for BFieldElement where stated); XFieldElement instances conditional. The division family is modelled a second time inside PolyInterp.v (pint_ names). Extra extraction directives: Word.wrap/wshr/wshl and rev -> zarith / List.rev."),
-}
+CHECKS = json.load(open(os.path.join(ROOT, "tools", "manifest_checks.json")))   # per-property texts
 
 ORDER = ["C%02d" % i for i in range(1, 21)]
 PENDING_REASON = ("check under construction in this session; the technique applies (see DESIGN.md section 6), "
